@@ -75,6 +75,15 @@ class FaultyCache(Cache):
         return "<FaultyCache>"
 
 
+class UnhashableFaultyCache(FaultyCache):
+    """The same backend as a value object (defines __eq__, hence no __hash__): still follows the Cache contract."""
+
+    def __eq__(self, other):
+        return self is other
+
+    __hash__ = None
+
+
 def _run(target, backend, dicts, runs, expect):
     for o in dicts:
         with quiet():
@@ -92,21 +101,21 @@ class _Runs(list):
     per_eval = 1
 
 
-@harness("C17", lemma="unit", cubes={"w": [0, 1, 2, 3, 4, 5, 6, 7]}, pre=["0 <= p%d <= 3" % i for i in range(4)], stubs=("S1",),
-         example=dict(w=0, p0=2, p1=3, p2=1, p3=0, a=1, b=2, same_ab=False), timeout=600,
-         bounds="cached(FunctionApplication(body, Option('A')), backend) - exactly Cached.evaluate and the three default cache "
+@harness("C17", lemma="unit", cubes={"w": [0, 1, 2, 3, 4, 5, 6, 7], "unhashable": [False, True]}, pre=["0 <= p%d <= 3" % i for i in range(4)], stubs=("S1",),
+         example=dict(w=0, unhashable=True, p0=2, p1=3, p2=1, p3=0, a=1, b=2, same_ab=False), timeout=600,
+         bounds="backend class hashable or not (a value object with __eq__); cached(FunctionApplication(body, Option('A')), backend) - exactly Cached.evaluate and the three default cache "
                 "handlers - evaluated on o1, o2, o1 (o2 equal to o1 or not); every assignment of {behave, miss/forget, lie-exists, "
                 "fail-get} to the 4 consecutive backend calls starting at call number w (all other calls behave); w in 0..7 covers the "
                 "10-12 backend calls of the history; option values unbounded ints; stub S1",
          what="every evaluation returns the body's value for its own options, never raises, and the body runs at most once per evaluation")
-def unit(w: int, p0: int, p1: int, p2: int, p3: int, a: int, b: int, same_ab: bool) -> int:
+def unit(w: int, unhashable: bool, p0: int, p1: int, p2: int, p3: int, a: int, b: int, same_ab: bool) -> int:
     runs = _Runs()
 
     def body(x):
         runs.append(x)
         return ("v", x)
 
-    backend = FaultyCache((p0, p1, p2, p3), w)
+    backend = (UnhashableFaultyCache if unhashable else FaultyCache)((p0, p1, p2, p3), w)
     with untraced():
         target = cached(FunctionApplication(body, Option("A")), backend)
     o1 = {"A": a}
